@@ -846,3 +846,220 @@ Qed.
 Lemma ex_si_constraints :
   build_core_constraints ex_si = [((0, 1), None); ((3, 5), Some (0, 0))].
 Proof. vm_compute. reflexivity. Qed.
+
+(* ------------------------------------------------------------------------------------------------ *)
+(* get_processor_status: every field is sliced from its documented place in the 128-byte block       *)
+
+Lemma rte_members : forall v, 0 <= v <= rte_codes_max -> zmem v rte_values = true.
+Proof.
+  intros v Hv. unfold rte_codes_max in Hv.
+  assert (H : v = 0 \/ v = 1 \/ v = 2 \/ v = 3 \/ v = 4 \/ v = 5 \/ v = 6 \/ v = 7 \/ v = 8 \/ v = 9 \/ v = 10 \/
+              v = 11 \/ v = 12 \/ v = 13 \/ v = 14 \/ v = 15 \/ v = 16 \/ v = 17 \/ v = 18 \/ v = 19 \/ v = 20) by lia.
+  repeat (destruct H as [->|H]; [reflexivity|]). subst. reflexivity.
+Qed.
+
+Lemma version_bytes : forall sw, 0 <= sw ->
+  [Z.land (Z.shiftr sw 16) 255; Z.land (Z.shiftr sw 8) 255; Z.land (Z.shiftr sw 0) 255] =
+  [(sw / 65536) mod 256; (sw / 256) mod 256; sw mod 256].
+Proof.
+  intros sw Hsw. change 255 with (Z.ones 8). rewrite !land_ones_mod by lia. rewrite !Z.shiftr_div_pow2 by lia.
+  change (2 ^ 16) with 65536. change (2 ^ 8) with 256. change (2 ^ 0) with 1. rewrite Z.div_1_r. reflexivity.
+Qed.
+
+Lemma le_decode_nonneg : forall bs, Forall is_byte bs -> 0 <= le_decode bs.
+Proof. induction 1 as [|b bs Hb _ IH]; cbn [le_decode]; unfold is_byte in *; lia. Qed.
+
+Lemma Forall_firstn' : forall {A} (P : A -> Prop) l n, Forall P l -> Forall P (firstn n l).
+Proof.
+  intros A P l. induction l as [|x l IH]; intros n H; [rewrite firstn_nil; constructor|].
+  destruct n; [constructor|]. inversion H; subst. cbn [firstn]. constructor; auto.
+Qed.
+
+Lemma Forall_skipn' : forall {A} (P : A -> Prop) l n, Forall P l -> Forall P (skipn n l).
+Proof.
+  intros A P l. induction l as [|x l IH]; intros n H; [rewrite skipn_nil; constructor|].
+  destruct n; [assumption|]. inversion H; subst. cbn [skipn]. auto.
+Qed.
+
+Lemma Forall_firstn_skipn : forall {A} (P : A -> Prop) l n o, Forall P l -> Forall P (firstn n (skipn o l)).
+Proof. intros. apply Forall_firstn', Forall_skipn'. assumption. Qed.
+
+Lemma read_vcpu_base_ok : forall rd base, is_word base ->
+  rd (SV_BASE + SV_VCPU_BASE) 4 = le_encode 4 base -> read_sv_int rd sv_vcpu_base = Ok base.
+Proof.
+  intros rd base Hb Hrd. unfold read_sv_int, read_int_field, sv_vcpu_base. cbv beta iota zeta.
+  change (("<" ++ String.concat "" (repeat "I" (Z.to_nat 1)))%string) with "<I"%string.
+  change (calcsize "<I") with (Some 4). cbv beta iota.
+  change (sv_base + 204) with (SV_BASE + SV_VCPU_BASE). rewrite Hrd. rewrite le_encode_4.
+  match goal with |- context [unpack "<I" ?l] => change (unpack "<I" l) with (Some [UInt (le_decode l)]) end.
+  cbv beta iota. rewrite <- le_encode_4. rewrite le_decode_encode by (apply word_range; assumption). reflexivity.
+Qed.
+
+Theorem status_slicing : forall (rd : reader) base p d,
+  status_block_valid d ->
+  read_sv_int rd sv_vcpu_base = Ok base ->
+  rd (base + VCPU_SIZE * p) VCPU_SIZE = d ->
+  processor_status rd p = Ok (status_truth d).
+Proof.
+  intros rd base p d (Hlen & Hbytes & Hcs & Hrt & Hname) Hbase Hrd.
+  assert (Hsw : 0 <= u32_at d 92) by (unfold u32_at; apply le_decode_nonneg, Forall_firstn_skipn; assumption).
+  clear Hbytes. apply app_states_members in Hcs. apply rte_members in Hrt.
+  unfold processor_status. rewrite Hbase. cbn [bind]. change vcpu_size with VCPU_SIZE. rewrite Hrd. clear Hrd Hbase.
+  unfold status_truth. rewrite <- (version_bytes _ Hsw). clear Hsw.
+  do 129 (destruct d as [|? d]; try discriminate). clear Hlen.
+  cbv -[le_decode zmem is_ascii strip0 appstate_values rte_values Z.land Z.shiftr] in Hname, Hcs, Hrt |- *.
+  rewrite Hname, Hcs, Hrt. reflexivity.
+Qed.
+
+(* a status block meeting the hypotheses *)
+Definition ex_block : list Z :=
+  map (fun i => if i =? 44 then 13 else if i =? 46 then 7 else if (72 <=? i) && (i <? 76) then 97 + i - 72
+                else if (76 <=? i) && (i <? 88) then 0 else (7 * i + 3) mod 256) (zrange 128).
+
+Lemma ex_block_valid : status_block_valid ex_block.
+Proof.
+  unfold status_block_valid. split; [reflexivity|]. split.
+  - apply Forall_forall. intros b Hb. unfold ex_block in Hb. apply in_map_iff in Hb. destruct Hb as (i & <- & Hi).
+    apply In_zrange in Hi. unfold is_byte.
+    destruct (i =? 44); [lia|]. destruct (i =? 46); [lia|].
+    destruct ((72 <=? i) && (i <? 76)) eqn:E.
+    + apply andb_true_iff in E. destruct E as [E1 E2]. apply Z.leb_le in E1. apply Z.ltb_lt in E2. lia.
+    + destruct ((76 <=? i) && (i <? 88)); [lia|]. apply Z.mod_pos_bound. lia.
+  - split; [vm_compute; tauto|]. split; [vm_compute; split; discriminate|]. reflexivity.
+Qed.
+
+(* ------------------------------------------------------------------------------------------------ *)
+(* sver: both version encodings                                                                       *)
+
+Lemma sver_header : forall x y pcpu vcpu buf a2hi a3, sver_header_valid x y pcpu vcpu buf -> 0 <= a2hi ->
+  let a1 := sver_arg1 x y pcpu vcpu in let a2 := a2hi * 65536 + buf in
+  sver_p2p_address (sver_p2p a1 a2 a3) = (x, y) /\ sver_pcpu a1 a2 a3 = pcpu /\ sver_vcpu a1 a2 a3 = vcpu /\
+  sver_buffer_size a1 a2 a3 = buf /\ sver_legacy_field a1 a2 a3 = a2hi.
+Proof.
+  intros x y pcpu vcpu buf a2hi a3 (Hx & Hy & Hp & Hvc & Hb) Hhi a1 a2. subst a1 a2.
+  unfold sver_p2p_address, sver_p2p, sver_pcpu, sver_vcpu, sver_buffer_size, sver_legacy_field, sver_arg1, is_byte in *.
+  change 255 with (Z.ones 8). change 65535 with (Z.ones 16). rewrite !land_ones_mod by lia.
+  rewrite !Z.shiftr_div_pow2 by lia. change (2 ^ 16) with 65536. change (2 ^ 8) with 256.
+  repeat split; try lia. f_equal; lia.
+Qed.
+
+Lemma is_ascii_app : forall a b, is_ascii (a ++ b) = is_ascii a && is_ascii b.
+Proof. intros. unfold is_ascii. apply forallb_app. Qed.
+
+Lemma ascii_text_is_ascii : forall s, ascii_text s -> is_ascii s = true.
+Proof.
+  induction 1 as [|c s Hc _ IH]; [reflexivity|]. unfold is_ascii in *. cbn [forallb]. rewrite IH.
+  replace (0 <=? c) with true by (symmetry; apply Z.leb_le; lia).
+  replace (c <? 128) with true by (symmetry; apply Z.ltb_lt; lia). reflexivity.
+Qed.
+
+Lemma digits_ascii_text : forall d, Forall (fun c => 48 <= c <= 57) d -> ascii_text d.
+Proof. intros d H. unfold ascii_text. eapply Forall_impl; [|eassumption]. cbv beta. intros; lia. Qed.
+
+Lemma lstrip0_pos : forall s, Forall (fun c => 0 < c < 128) s -> lstrip0 s = s.
+Proof. intros [|c s] H; [reflexivity|]. inversion H; subst. destruct c; try reflexivity; lia. Qed.
+
+Lemma rstrip0_text : forall s, ascii_text s -> rstrip0 s = s.
+Proof.
+  intros s H. unfold rstrip0. rewrite lstrip0_pos; [apply rev_involutive|].
+  apply Forall_rev. assumption.
+Qed.
+
+Lemma rstrip0_text_nul : forall s, ascii_text s -> rstrip0 (s ++ [0]) = s.
+Proof.
+  intros s H. unfold rstrip0. rewrite rev_app_distr. cbn [rev app lstrip0].
+  rewrite lstrip0_pos; [apply rev_involutive|]. apply Forall_rev. assumption.
+Qed.
+
+Lemma partition0_text : forall s rest, ascii_text s -> partition0 (s ++ 0 :: rest) = (s, rest).
+Proof.
+  induction 1 as [|c s Hc _ IH]; [reflexivity|]. cbn [app partition0].
+  replace (c =? 0) with false by (symmetry; apply Z.eqb_neq; lia). rewrite IH. reflexivity.
+Qed.
+
+Lemma take_digits_app : forall d r, Forall (fun c => 48 <= c <= 57) d ->
+  match r with [] => True | c :: _ => c < 48 \/ 57 < c end ->
+  take_digits (d ++ r) = (d, r).
+Proof.
+  induction 1 as [|c d Hc _ IH]; intros Hr.
+  - destruct r as [|c r]; [reflexivity|]. cbn [app take_digits]. unfold is_digit.
+    destruct Hr as [Hr|Hr].
+    + replace (48 <=? c) with false by (symmetry; apply Z.leb_gt; lia). reflexivity.
+    + replace (c <=? 57) with false by (symmetry; apply Z.leb_gt; lia). rewrite andb_false_r. reflexivity.
+  - cbn [app take_digits]. unfold is_digit at 1.
+    replace (48 <=? c) with true by (symmetry; apply Z.leb_le; lia).
+    replace (c <=? 57) with true by (symmetry; apply Z.leb_le; lia). cbn [andb]. rewrite IH by assumption. reflexivity.
+Qed.
+
+Lemma match_labels_ok : forall l, labels_ok l -> match_labels l = Some l.
+Proof.
+  intros [|c t] (_ & Hnl & _); [reflexivity|]. cbn [match_labels].
+  destruct (zmem 10 t) eqn:E; [|reflexivity]. apply zmem_In in E. exfalso. apply Hnl. right. assumption.
+Qed.
+
+Lemma match_version_ok : forall d1 d2 d3 labels, digits d1 -> digits d2 -> digits d3 -> labels_ok labels ->
+  match_version (d1 ++ 46 :: d2 ++ 46 :: d3 ++ labels) = Some (dec_value d1, dec_value d2, dec_value d3, labels).
+Proof.
+  intros d1 d2 d3 labels [N1 D1] [N2 D2] [N3 D3] Hl. unfold match_version.
+  rewrite take_digits_app by (auto; cbv beta iota; lia).
+  destruct d1 as [|c1 d1]; [contradiction|].
+  rewrite take_digits_app by (auto; cbv beta iota; lia).
+  destruct d2 as [|c2 d2]; [contradiction|].
+  rewrite take_digits_app by (auto; destruct Hl as (_ & _ & H); exact H).
+  destruct d3 as [|c3 d3]; [contradiction|].
+  rewrite match_labels_ok by assumption. reflexivity.
+Qed.
+
+Theorem sver_legacy_roundtrip : forall x y pcpu vcpu major minor buf date name,
+  sver_header_valid x y pcpu vcpu buf -> 0 <= major -> 0 <= minor < 100 -> 100 * major + minor < 65535 ->
+  ascii_text name ->
+  decode_sver (encode_sver_legacy x y pcpu vcpu major minor buf date name) =
+  Ok (mkCO (x, y) pcpu vcpu (major, minor, 0) buf date name []).
+Proof.
+  intros x y pcpu vcpu major minor buf date name Hh Hmaj Hmin Hlt Hname.
+  unfold decode_sver, encode_sver_legacy. cbn [r_arg1 r_arg2 r_arg3 r_data].
+  destruct (sver_header x y pcpu vcpu buf (100 * major + minor) date Hh ltac:(lia)) as (H1 & H2 & H3 & H4 & H5).
+  cbv zeta in H1, H2, H3, H4, H5. rewrite H1, H2, H3, H4, H5.
+  rewrite is_ascii_app, ascii_text_is_ascii by assumption. cbn [is_ascii forallb andb Z.leb Z.ltb Z.compare].
+  unfold sver_is_legacy. replace (100 * major + minor =? 65535) with false by (symmetry; apply Z.eqb_neq; lia).
+  cbn [negb]. rewrite rstrip0_text_nul by assumption.
+  unfold sver_legacy_major, sver_legacy_minor, sver_legacy_patch.
+  replace ((100 * major + minor) / 100) with major by lia. replace ((100 * major + minor) mod 100) with minor by lia.
+  reflexivity.
+Qed.
+
+Theorem sver_semver_roundtrip : forall x y pcpu vcpu buf date name d1 d2 d3 labels,
+  sver_header_valid x y pcpu vcpu buf -> ascii_text name -> digits d1 -> digits d2 -> digits d3 -> labels_ok labels ->
+  decode_sver (encode_sver_semver x y pcpu vcpu buf date name d1 d2 d3 labels) =
+  Ok (mkCO (x, y) pcpu vcpu (dec_value d1, dec_value d2, dec_value d3) buf date name labels).
+Proof.
+  intros x y pcpu vcpu buf date name d1 d2 d3 labels Hh Hname H1 H2 H3 Hl.
+  unfold decode_sver, encode_sver_semver. cbn [r_arg1 r_arg2 r_arg3 r_data].
+  destruct (sver_header x y pcpu vcpu buf 65535 date Hh ltac:(lia)) as (E1 & E2 & E3 & E4 & E5).
+  cbv zeta in E1, E2, E3, E4, E5. rewrite E1, E2, E3, E4, E5.
+  assert (Htxt : ascii_text (d1 ++ 46 :: d2 ++ 46 :: d3 ++ labels)).
+  { destruct H1 as [_ D1]. destruct H2 as [_ D2]. destruct H3 as [_ D3]. destruct Hl as (Hl & _).
+    unfold ascii_text in *. apply Forall_app. split; [apply digits_ascii_text; assumption|].
+    constructor; [lia|]. apply Forall_app. split; [apply digits_ascii_text; assumption|].
+    constructor; [lia|]. apply Forall_app. split; [apply digits_ascii_text; assumption|assumption]. }
+  assert (Hasc : is_ascii (name ++ 0 :: (d1 ++ 46 :: d2 ++ 46 :: d3 ++ labels) ++ [0]) = true).
+  { rewrite is_ascii_app, ascii_text_is_ascii by assumption. cbn [andb].
+    change (0 :: (d1 ++ 46 :: d2 ++ 46 :: d3 ++ labels) ++ [0]) with ([0] ++ (d1 ++ 46 :: d2 ++ 46 :: d3 ++ labels) ++ [0]).
+    rewrite !is_ascii_app, ascii_text_is_ascii by assumption. reflexivity. }
+  rewrite Hasc. change (sver_is_legacy 65535) with false. cbv iota.
+  rewrite partition0_text by assumption. rewrite rstrip0_text_nul by assumption.
+  rewrite match_version_ok by assumption. rewrite rstrip0_text by assumption. reflexivity.
+Qed.
+
+Lemma ex_sver_semver :
+  sver_header_valid 3 4 17 0 256 /\ ascii_text (chars "SC&MP/SpiNNaker") /\ digits (chars "2") /\ digits (chars "10") /\
+  digits (chars "0") /\ labels_ok (chars "-dev") /\
+  option_map flat_core_info (okopt (decode_sver (encode_sver_semver 3 4 17 0 256 1459253424 (chars "SC&MP/SpiNNaker")
+                                                                    (chars "2") (chars "10") (chars "0") (chars "-dev"))))
+  = Some [[3; 4; 17; 0; 2; 10; 0; 256; 1459253424]; chars "SC&MP/SpiNNaker"; chars "-dev"].
+Proof.
+  unfold sver_header_valid, is_byte, ascii_text, digits, labels_ok, ascii_text.
+  repeat split; try lia; try discriminate; try (vm_compute; repeat constructor; lia).
+  - vm_compute. intuition discriminate.
+  - vm_compute. lia.
+Qed.
